@@ -1123,8 +1123,10 @@ fn stage_verdict(n_msgs: usize, r: &LcRun) -> Option<Verdict> {
 /// every key of the published table has exactly one value (readers do `get_one().unwrap()`): at every delivery / at the end
 fn bags_at_deliveries(r: &LcRun) -> Option<Verdict> {
     for d in r.deliveries.iter() {
-        if let Some(x) = d.snap.iter().find(|x| x.bag_len != 1) {
-            return Some(fail("published_key_single_value", format!("at the delivery of message {}: key {} of the published table has {} values", d.index, x.id, x.bag_len)));
+        // C06 speaks about the lifecycle the DELIVERED message is assigned to: its key must hold exactly one value (a reader does
+        // `get_one()`); other keys of the table at that instant are not C06's subject (the final table is C07's)
+        if let Some(x) = d.snap.iter().find(|x| x.id == d.lc && x.bag_len != 1) {
+            return Some(fail("published_key_single_value", format!("at the delivery of message {}: the key {} of the message's lifecycle has {} values in the published table", d.index, x.id, x.bag_len)));
         }
     }
     None
